@@ -104,6 +104,10 @@ type C12Scn struct {
 	History   []int  `json:"history,omitempty"`
 	Cache     string `json:"cache,omitempty"` // "" | plain | plan
 	Repeat    int    `json:"repeat,omitempty"`
+	// Gen: a generated document (gendoc.go) with error-producing faults takes
+	// the place of the pool request
+	Gen       *GenDoc           `json:"gen,omitempty"`
+	GenFaults map[string]string `json:"gen_faults,omitempty"`
 }
 
 type c12 struct{}
@@ -174,6 +178,21 @@ func (p c12) Gen(seed uint64, enum int, tier string) json.RawMessage {
 		}
 	}
 	s.Repeat = r.Intn(3)
+	if r.Chance(35) {
+		// a generated document; some of its resolvers fail (errors in the
+		// response, whose order is part of the response)
+		gd := GenQueryDoc(r, c04GenWorld(), 6+r.Intn(30), true)
+		s.Gen = &gd
+		w := c04GenWorld()
+		rc := &ReqCtx{Task: "dry", W: w, RootTok: Tok{T: "Query"}}
+		graphql.Do(graphql.Params{Schema: w.Schema, RequestString: gd.Query, VariableValues: gd.Vars, Context: WithReq(context.Background(), rc)})
+		s.GenFaults = map[string]string{}
+		for _, p := range SortedKeys(rc.Seen) {
+			if r.Chance(25) {
+				s.GenFaults["R@"+p] = []string{FErr, FThunkErr, FThunk, FPanicStr, FNil}[r.Intn(5)]
+			}
+		}
+	}
 	return mustJSON(s)
 }
 
@@ -353,7 +372,14 @@ func (c12) Run(t TestingT, scn json.RawMessage, tape *Tape) *Outcome {
 	rq := c12Reqs[sc.Req]
 	defer verifmo.Set(verifmo.Sorted, 0)
 	validate := sc.Variant == "validate"
-	ref := c12Reference(sc.Req, validate)
+	var ref string
+	if sc.Gen != nil {
+		rq = c12Req{Name: "generated", Query: sc.Gen.Query, Vars: normaliseJSONInts(sc.Gen.Vars).(map[string]interface{}), Faults: sc.GenFaults, Kind: "failing"}
+		verifmo.Set(verifmo.Sorted, 0)
+		ref = c12Exec(c12World(), rq, nil, nil, "")
+	} else {
+		ref = c12Reference(sc.Req, validate)
+	}
 
 	before := verifmo.MultiKeyCalls()
 	verifmo.Set(sc.BuildPol, sc.BuildSalt)
@@ -411,7 +437,9 @@ func (c12) Run(t TestingT, scn json.RawMessage, tape *Tape) *Outcome {
 	if validate {
 		refName += "/validate"
 	}
-	o.Refs = map[string]string{refName: fmt.Sprintf("%016x", hr.Sum64())}
+	if sc.Gen == nil {
+		o.Refs = map[string]string{refName: fmt.Sprintf("%016x", hr.Sum64())}
+	}
 	for i, g := range got {
 		if g != ref {
 			o.Violate("C12/differs@"+rq.Name, "request %q (%s, variant %s, execution %d) differs from its reference response (fresh schema, sorted order, no history)\n  %s",
